@@ -18,6 +18,33 @@ CHECKS = {
  "C12": ("TLC trace validation (JPart judge: cardinality gap and Oracles.OptBalanced over all subsets) of cbldm executions on a TLC-enumerated scope and seeded families",
          "cbldm is executed on every bag (n<=7/9, values 0..5) under every cardinality bound in {1,2,3,n-1,n,n+3,default} and on all-ones / near-equal / random families up to 12 items; TLC recomputes the constrained optimum by subset enumeration.",
          "Trusted: TLC, Oracles.OptBalanced.", "7 C12"),
+ "C03": ("TLC trace validation (JPack judge: Contract feasibility clauses) of ff, ffd, bf, bfd and bin-completion executions on every arrival sequence of a TLC-enumerated scope, dyadic inputs and seeded families",
+         "Every packer is executed on every sequence of <=5 values (C in {4,6}; eighths for the fit heuristics) with output types PartitionAndSumsTuple, BinCount and Sums, and on seeded 6-14 item families; TLC checks each bin <= binsize, every item exactly once (bin-completion may drop zeros), no empty bin, count = number of bins.",
+         "Trusted: TLC, Contract.tla, value matching of plain-list results to ids.", "7 C03"),
+ "C04": ("TLC trace validation (JPack judge: number of bins = Oracles.MinBins, a subset DP evaluated by TLC) of bin-completion executions",
+         "bin-completion is executed on every sequence of <=5 values in 1..C (C in {4,6}) and on seeded 6-12 item families where BFD misses the lower bound; TLC recomputes the minimum number of bins and compares the Partition, Sums and BinCount outputs with it and with the textbook FFD/BFD counts.",
+         "Trusted: TLC, Oracles.MinBins (cross-validated against an independent recursion in every run).", "7 C04"),
+ "C05": ("TLC trace validation (JPack judge: Contract.ValidCover) of decreasing / two-thirds / three-quarters executions on a TLC-enumerated scope and seeded families, list and dict input",
+         "The three covers are executed on every sequence of <=5 positive values up to C+2 (C in {4,6}) as list and as dict, and on seeded families up to 40 items; TLC checks every bin >= binsize, items used at most once, leftovers < binsize.",
+         "Trusted: TLC, Contract.tla.", "7 C05"),
+ "C06": ("TLC trace validation (JPart/JPack judges: Contract.SumsDescribeBins and OutputTypes.Disagrees) of every algorithm called with each of the ten output types",
+         "Every partitioning / packing / covering algorithm is called on every input of a TLC-enumerated universe and seeded families with all ten output types; TLC checks sums against bins and each cheaper output against the value derived from the full output.",
+         "Trusted: TLC, OutputTypes.tla, exact float->integer normalisation.", "7 C06"),
+ "C07": ("TLC trace validation (JPart/JPack judges: C07 clauses comparing the same call across list / numpy array / dict / names+valueof presentations)",
+         "Every algorithm is called on every input of a TLC-enumerated universe and seeded families in four presentations; TLC compares the bags of sums and checks that named results are valid over the names and reproduce the sums.",
+         "Trusted: TLC, the harness's name<->id bijection.", "7 C07"),
+ "C09": ("TLC trace validation (JPack/JCertPack judges: Contract.AnyFitInvariant, integer forms of the 1.7 / 11/9 bounds against Oracles.MinBins or a TLC-checked certificate)",
+         "ff, ffd, bf, bfd are executed on every arrival order of a TLC-enumerated scope (C in {4,6,12}, eighths), seeded families, classical bad families and planted perfect packings up to 300 items; TLC checks the any-fit invariant on the placement order and the bin-count bounds.",
+         "Trusted: TLC, Oracles.MinBins, certificate check in JCertPack.tla.", "7 C09"),
+ "C10": ("TLC trace validation (JPack/JCertPack judges: covered-bin counts against Oracles.MaxCover or a TLC-checked certificate / witness cover)",
+         "The three covers are executed on every sequence of a TLC-enumerated scope, seeded families <=12 items, the published worst-case families generalised in k, and planted exact covers up to 300 items; TLC checks the three guarantees and <= OPT.",
+         "Trusted: TLC, Oracles.MaxCover (cross-validated in every run), certificates.", "7 C10"),
+ "C14": ("TLC trace validation (JPart/JPack judges: result = Textbook.tla transcription of the documented rule) + TLC model checking of the textbook machines against the contract",
+         "Greedy, round-robin, ff, ffd, bf, bfd and the three covers are executed on every arrival sequence of a TLC-enumerated scope (all tie patterns, exact fills, items at binsize/2 and binsize/3) and seeded families; TLC compares bag of sums (all) and bins as bags of values (rr, ff, ffd, covers) with the rule; the rule machines are model-checked against L0 and tie freedom shown irrelevant.",
+         "Trusted: TLC, Textbook.tla as the reading of the documentation.", "7 C14"),
+ "C19": ("TLC trace validation (JPack C19 clause, JRefuse judge) of TLC-enumerated malformed requests: oversize items at every position / multiplicity x format x output type x packer; cbldm calls with exactly one invalid argument",
+         "TLC enumerates every sequence with >=1 oversize item (<=5 items) and every cbldm call with one invalid argument; each is executed in list/dict/valueof presentation and all ten output types; TLC requires ValueError (and an answer for the all-valid control); numitems probed on both managers.",
+         "Trusted: TLC.", "7 C19"),
 }
 PENDING = {}
 
